@@ -389,8 +389,9 @@ class Fn(object):
 
     def pdom(self):
         if self._pdom is None:
-            self._pdom = self._idom(self.exit, lambda b: [p for p, _ in self.blocks[b].preds],
-                                    lambda b: [s for s, _ in self.blocks[b].succ])
+            # a noreturn block (failed assertion, abort) never reaches the exit: its CFG edge to the exit block is not a path
+            self._pdom = self._idom(self.exit, lambda b: [p for p, _ in self.blocks[b].preds if not self.blocks[p].noreturn],
+                                    lambda b: [] if self.blocks[b].noreturn else [s for s, _ in self.blocks[b].succ])
         return self._pdom
 
     def dominates(self, a, b):
@@ -843,6 +844,98 @@ class Program(object):
 
 # ---------------------------------------------------------------- pure expression evaluation (K6)
 
+HEAP_BASE = 100000
+FREED = "<freed>"
+
+
+class PPtr(object):
+    """Pointer to an abstract heap object; its fields live in the evaluation environment under ("@", id, "record.field")."""
+    __slots__ = ("id",)
+
+    def __init__(self, id_):
+        self.id = id_
+
+    def __eq__(self, o):
+        if isinstance(o, PPtr):
+            return self.id == o.id
+        if isinstance(o, int):
+            return False if o == 0 else NotImplemented
+        return False
+
+    def __ne__(self, o):
+        r = self.__eq__(o)
+        return r if r is NotImplemented else not r
+
+    def __hash__(self):
+        return hash(("PPtr", self.id))
+
+    def __add__(self, n):
+        # (struct T *)p + 1: the memory directly behind an allocated object (EVBUFFER_CHAIN_EXTRA): objects allocated during evaluation have ids ("n", k)
+        # and own the address range starting at HEAP_BASE * (20 + k)
+        if isinstance(n, int) and n == 1 and isinstance(self.id, tuple) and self.id[0] == "n":
+            return HEAP_BASE * (20 + self.id[1])
+        raise EvalError("pointer arithmetic on abstract object %r" % (self.id,))
+    __radd__ = __add__
+
+    def __sub__(self, o):
+        raise EvalError("pointer arithmetic on abstract object %r" % (self.id,))
+
+    def __bool__(self):
+        return True
+
+    def __repr__(self):
+        return "&%s" % (self.id,)
+
+
+class PRef(object):
+    """Pointer to one field of an abstract heap object (e.g. &chain->next), or to a variable of the evaluated function (obj None)."""
+    __slots__ = ("obj", "field")
+
+    def __init__(self, obj, field):
+        self.obj = obj
+        self.field = field
+
+    def cell(self):
+        return ("@", self.obj, self.field) if self.obj is not None else self.field
+
+    def __eq__(self, o):
+        return isinstance(o, PRef) and self.obj == o.obj and self.field == o.field
+
+    def __ne__(self, o):
+        return not self.__eq__(o)
+
+    def __hash__(self):
+        return hash(("PRef", self.obj, self.field))
+
+    def __bool__(self):
+        return True
+
+    def __repr__(self):
+        return "&%s.%s" % (self.obj, self.field)
+
+
+def heap_cell(e, env, P):
+    """environment key of the lvalue e when it designates a field of an abstract heap object or the target of a PRef; else None"""
+    e = strip(e)
+    if is_e(e, "fld"):
+        try:
+            b = evalx(e[1], env, P)
+        except EvalError:
+            return None
+        if isinstance(b, PPtr):
+            return ("@", b.id, e[2])
+        return None
+    if is_e(e, "deref"):
+        try:
+            b = evalx(e[1], env, P)
+        except EvalError:
+            return None
+        if isinstance(b, PRef):
+            return b.cell()
+        return None
+    return None
+
+
 class PCtypeTab(object):
     """glibc's character-class table (*__ctype_b_loc()): index -128..255 -> class bits of the "C" locale"""
     def at(self, i=0):
@@ -994,6 +1087,25 @@ def evalx(e, env, P=None):
         return PStr(e[1])
     if t == "var" and e[1] in env:
         return env[e[1]]
+    if t == "fld" or t == "deref":
+        hc = heap_cell(e, env, P)
+        if hc is not None:
+            if hc not in env:
+                raise EvalError("uninitialised heap cell %s" % (hc,))
+            if env[hc] is FREED or env[hc] == FREED:
+                raise EvalError("use after free: %s" % (hc,))
+            return env[hc]
+    if t == "addr":
+        x = strip(e[1])
+        if is_e(x, "fld"):
+            try:
+                b = evalx(x[1], env, P)
+            except EvalError:
+                b = None
+            if isinstance(b, PPtr):
+                return PRef(b.id, x[2])
+        if is_e(x, "deref"):
+            return evalx(x[1], env, P)
     if t in ("deref", "idx"):
         try:
             b = evalx(e[1], env, P)
